@@ -18,7 +18,7 @@ RT = re.compile(r"^\(rt ([0-9a-f]*) \| (.*) \| (.*)\)$")
 
 def explore(ctx):
     h = common.hexs
-    n = 2000 if ctx.quick else 60000
+    n = 8000 if ctx.quick else 60000
     cases = []
     per = 20
     exprs_all = []
